@@ -50,23 +50,24 @@ Definition complete_req (t : tabs) (sv : server) (rq : request) : bool :=
        && forallb (complete_path t rq) (ru_paths r)) (sv_rules sv).
 
 (** *** observables *)
-Definition obs := (Z * string * string * bool * Z)%type.
-  (* status, handler invoked, path seen, panic, identity (generation) of the handler invoked (0 = none) *)
+Definition obs := (Z * string * string * bool * Z * string)%type.
+  (* status, handler invoked, path seen, panic, identity (generation) of the handler invoked
+     (0 = none), X-Forwarded-For seen by the handler *)
 
-Definition obs_of (m : mapper) (o : outcome) : obs :=
+Definition obs_of (m : mapper) (xff : string) (o : outcome) : obs :=
   match o with
-  | Dispatched b p => (200%Z, b, p, false, match alookup b m with Some g => Z.of_N g | None => 0%Z end)
-  | Failed c => (c, "", "", false, 0%Z)
-  | Panicked => (0%Z, "", "", true, 0%Z)
+  | Dispatched b p => (200%Z, b, p, false, match alookup b m with Some g => Z.of_N g | None => 0%Z end, xff)
+  | Failed c => (c, "", "", false, 0%Z, "")
+  | Panicked => (0%Z, "", "", true, 0%Z, "")
   end.
 
 Definition obs_eqb (a b : obs) : bool :=
-  let '(s1, b1, p1, x1, g1) := a in let '(s2, b2, p2, x2, g2) := b in
-  Z.eqb s1 s2 && String.eqb b1 b2 && String.eqb p1 p2 && Bool.eqb x1 x2 && Z.eqb g1 g2.
+  let '(s1, b1, p1, x1, g1, f1) := a in let '(s2, b2, p2, x2, g2, f2) := b in
+  Z.eqb s1 s2 && String.eqb b1 b2 && String.eqb p1 p2 && Bool.eqb x1 x2 && Z.eqb g1 g2 && String.eqb f1 f2.
 
 Definition bN (b : bool) (n : N) : N := if b then n else 0%N.
 
-Definition status_of (o : obs) : Z := fst (fst (fst (fst o))).
+Definition status_of (o : obs) : Z := fst (fst (fst (fst (fst o)))).
 Definition has_status (c : Z) (l : list obs) : bool := existsb (fun o => Z.eqb (status_of o) c) l.
 
 (** the mapper of a server whose pipelines never change: every known backend, generation 1 *)
@@ -85,17 +86,19 @@ Record route_case := {
 
 Definition model_route (c : route_case) : list obs :=
   let t := rc_tabs c in
-  map (fun x => obs_of (snd x) (serve_nocache (o_re t) (o_rep t) (o_ip t) (with_mapper (rc_sv c) (snd x)) (fst x)))
+  map (fun x => obs_of (snd x) (forwarded_for (rc_sv c) (fst x))
+                       (serve_nocache (o_re t) (o_rep t) (o_ip t) (with_mapper (rc_sv c) (snd x)) (fst x)))
       (combine (rc_reqs c) (rc_mappers c)).
 
 Definition spec_route (c : route_case) : list obs :=
   let t := rc_tabs c in
-  map (fun x => obs_of (snd x) (serve_spec (o_re t) (o_rep t) (o_ip t) (with_mapper (rc_sv c) (snd x)) (fst x)))
+  map (fun x => obs_of (snd x) (forwarded_for (rc_sv c) (fst x))
+                       (serve_spec (o_re t) (o_rep t) (o_ip t) (with_mapper (rc_sv c) (snd x)) (fst x)))
       (combine (rc_reqs c) (rc_mappers c)).
 
 Definition rewritten (reqs : list request) (os : list obs) : bool :=
   existsb (fun x => let '(rq, o) := x in
-                    let '(s, b, p, _, _) := o in Z.eqb s 200 && negb (String.eqb p (rq_path rq)))
+                    let '(s, b, p, _, _, _) := o in Z.eqb s 200 && negb (String.eqb p (rq_path rq)))
           (combine reqs os).
 
 Definition mapper_eqb (a b : mapper) : bool :=
@@ -134,7 +137,8 @@ Definition explain_route (c : route_case) :=
 
 (** ** C12: group "cache" (twin muxes: cacheSize n and 0; requests interleaved with reloads) *)
 Inductive cop :=
-| CReq (i : nat) (o : obs * obs * list key)   (* request pool[i]: cached mux, cache-less twin, cache keys afterwards *)
+| CReq (i : nat) (m : mapper) (o : obs * obs * list key)
+    (* request pool[i] while the MuxMapper holds [m]: cached mux, cache-less twin, cache keys afterwards *)
 | CReload (s : nat).                          (* both twins reloaded with spec svs[s] *)
 
 Record cache_case := {
@@ -147,7 +151,7 @@ Record cache_case := {
 
 Definition dummy_req : request :=
   {| rq_host := ""; rq_method := ""; rq_path := ""; rq_rawpath := ""; rq_headers := []; rq_ip := ""; rq_body := 0%Z |}.
-Definition dummy_sv : server := {| sv_filter := None; sv_rules := []; sv_backends := []; sv_body := 0%Z |}.
+Definition dummy_sv : server := {| sv_filter := None; sv_rules := []; sv_backends := []; sv_body := 0%Z; sv_xff := false |}.
 
 Definition mem_key (k : key) (l : list key) : bool := existsb (key_eqb k) l.
 
@@ -169,13 +173,13 @@ Section Crun.
     match ops with
     | [] => []
     | CReload s :: rest => crun (nth s svs dummy_sv) [] rest
-    | CReq i (_, _, dump) :: rest =>
+    | CReq i m (_, _, dump) :: rest =>
         let rq := nth i pool dummy_req in
         let '(r, c') := search_cached (o_re t) (o_ip t) q sv c rq in
         let c'' := evict (keepf pinned q pool dump) c' in
         let k := mk_key q rq in
         let stored := negb (isSome (clookup k c)) && isSome (clookup k c') in
-        (obs_of (static_mapper sv) (dispatch (o_rep t) sv rq r), map fst c'',
+        (obs_of m (forwarded_for sv rq) (dispatch (o_rep t) (with_mapper sv m) rq r), map fst c'',
          negb stored || isSome (clookup k c'')) :: crun sv c'' rest
     end.
 
@@ -183,8 +187,9 @@ Section Crun.
     match ops with
     | [] => []
     | CReload s :: rest => twin_run (nth s svs dummy_sv) rest
-    | CReq i _ :: rest =>
-        obs_of (static_mapper sv) (serve_nocache (o_re t) (o_rep t) (o_ip t) sv (nth i pool dummy_req))
+    | CReq i m _ :: rest =>
+        let rq := nth i pool dummy_req in
+        obs_of m (forwarded_for sv rq) (serve_nocache (o_re t) (o_rep t) (o_ip t) (with_mapper sv m) rq)
           :: twin_run sv rest
     end.
 End Crun.
@@ -195,7 +200,7 @@ Definition keyset_eqb (a b : list key) : bool :=
 Fixpoint req_obs (ops : list cop) : list (obs * obs * list key) :=
   match ops with
   | [] => []
-  | CReq _ o :: t => o :: req_obs t
+  | CReq _ _ o :: t => o :: req_obs t
   | CReload _ :: t => req_obs t
   end.
 
@@ -204,7 +209,7 @@ Fixpoint take_reqs (n : nat) (ops : list cop) : list cop :=
   match n, ops with
   | O, _ => []
   | _, [] => []
-  | S n', CReq i o :: t => CReq i o :: take_reqs n' t
+  | S n', CReq i m o :: t => CReq i m o :: take_reqs n' t
   | S _, CReload s :: t => CReload s :: take_reqs n t
   end.
 
@@ -266,7 +271,7 @@ Definition count_hits (pinned : quirks) (c : cache_case) : nat :=
     match l with
     | [] => O
     | CReload _ :: t => go [] t
-    | CReq i (_, _, dump) :: t =>
+    | CReq i _ (_, _, dump) :: t =>
         (if mem_key (mk_key pinned (nth i (cc_pool c) dummy_req)) prev then 1 else 0) + go dump t
     end in
   go [] (cc_ops c).
@@ -276,9 +281,12 @@ Definition evicted_some (c : cache_case) : bool :=
     match l with
     | [] => false
     | CReload _ :: t => go [] t
-    | CReq _ (_, _, dump) :: t => negb (forallb (fun k => mem_key k dump) prev) || go dump t
+    | CReq _ _ (_, _, dump) :: t => negb (forallb (fun k => mem_key k dump) prev) || go dump t
     end in
   go [] (cc_ops c).
+
+Definition op_mappers (c : cache_case) : list mapper :=
+  flat_map (fun o => match o with CReq _ m _ => [m] | CReload _ => [] end) (cc_ops c).
 
 Definition has_reload (c : cache_case) : bool :=
   existsb (fun o => match o with CReload _ => true | _ => false end) (cc_ops c).
@@ -293,7 +301,7 @@ Definition check_cache (pinned : quirks) (c : cache_case) : result :=
     let ok_tabs := forallb (fun sv => forallb (complete_req t sv) (cc_pool c)) (cc_svs c) in
     let ok_host := list_eqb String.eqb (map (fun rq => strip_port (rq_host rq)) (cc_pool c)) (cc_hostnames c) in
     let ok_seq := forallb (fun o => match o with
-                                    | CReq i _ => Nat.ltb i (List.length (cc_pool c))
+                                    | CReq i _ _ => Nat.ltb i (List.length (cc_pool c))
                                     | CReload s => Nat.ltb s (List.length (cc_svs c))
                                     end) ops
                   && Nat.ltb 0 (List.length (cc_svs c)) in
@@ -312,7 +320,8 @@ Definition check_cache (pinned : quirks) (c : cache_case) : result :=
      | _ => (1 + bN (Nat.ltb 0 (count_hits pinned c)) 1 + bN (evicted_some c) 2 + bN (negb prop) 4
                + bN (has_status 403 twin) 8 + bN (has_status 200 twin) 16
                + bN (has_status 404 twin || has_status 405 twin) 32 + bN (has_status 400 twin) 64
-               + bN (has_reload c) 128 + bN (has_status 413 twin) 256)%N
+               + bN (has_reload c) 128 + bN (has_status 413 twin) 256
+               + bN (mapper_changes (op_mappers c)) 512)%N
      end,
      if prop then 0%N else attribute pinned c).
 
